@@ -24,12 +24,14 @@ PROPERTY = "C20"
 LEVEL = "exploration"
 SHARDS = {"quick": 8, "thorough": 16}
 BUDGET = {"quick": 25.0, "thorough": 400.0}
+# Every threshold is at most ~60 % of what the directed core cases alone deliver (they are bounded by count, not by time),
+# so machine load cannot turn the unchanged tree inconclusive; `random_histories` guards that the random part ran at all.
 REQUIRE = {
     "renders_judged": 10000,
     "clause_slice": 10000,
     "clause_slice_scrolled(p>0)": 5000,
-    "clause_slice_blank_padded_rows": 1000,
-    "clause_slice_narrow_or_trimmed_cols": 400,
+    "clause_slice_blank_padded_rows": 800,
+    "clause_slice_narrow_or_trimmed_cols": 120,
     "clause_pos": 10000,
     "clause_bar_present": 5000,
     "clause_bar_absent": 800,
@@ -38,21 +40,29 @@ REQUIRE = {
     "clause_top>0_at_p>0": 4000,
     "clause_monotone_pairs": 30000,
     "clause_handed_width": 2000,
-    "clause_handled_key_p_unchanged": 150,
-    "clause_handled_mouse_p_unchanged": 100,
+    "clause_handled_key_p_unchanged": 60,
+    "clause_handled_mouse_p_unchanged": 60,
     "ops:key": 3000,
     "ops:mouse": 1500,
     "ops:setpos": 2000,
-    "ops:resize": 300,
-    "ops:content": 500,
+    "ops:resize": 250,
+    "ops:content": 100,
     "kind:S": 200,
     "kind:SB": 300,
     "kind:LB": 100,
-    "ops:bar_width_setter(n<1)": 60,
-    "ops:bar_width_setter(n>=1)": 60,
-    "ops:dive": 200,
-    "clause_thumb_top_listbox_cursor_shown": 300,
+    "random_histories": 40,
+    "ops:bar_width_setter(n<1)": 25,
+    "ops:bar_width_setter(n>=1)": 50,
+    "ops:dive": 150,
+    "clause_thumb_top_listbox_cursor_shown": 150,
     "clause_thumb_top_listbox_cursor_shown_scrolled(p>0)": 150,
+    "clause_thumb_listbox_relative_mode": 1000,
+    "clause_thumb_custom_walker_relative_mode": 200,
+    "clause_thumb_custom_walker_row_mode": 200,
+    "clause_thumb_listbox_wraps_differently_beside_bar_relative_mode": 150,
+    "clause_parts_relative_mode_wrapping_items_at_the_end": 40,
+    "reach:widget.listbox.ListBox.get_first_visible_pos": 500,
+    "reach:widget.listbox.ListBox.get_visible_amount": 500,
     "reach:widget.scrollable.Scrollable._adjust_trim_top": 5000,
     "reach:widget.scrollable.ScrollBar.render": 5000,
     "reach:widget.listbox.ListBox.get_scrollpos": 1000,
@@ -77,7 +87,7 @@ ASSUMES = [
     "'handled events are not also used for scrolling' is judged only for events a spy reported as handled while the wrapped content shows no cursor (Scrollable's follow-the-cursor adjustment after an Edit consumed a key is not counted as scrolling by that key)",
     "text cells are compared, attributes are not",
     "the bar width the oracle uses is the one the scrollbar_width property reports after construction / after the setter (documented clamp max(1, n)); thumb and trough characters have no public setter and are only chosen at construction",
-    "ListBox items always have >= 1 row and the list walker is a plain SimpleListWalker/SimpleFocusListWalker (C07 covers the rest)",
+    "ListBox items always have >= 1 row; list walkers are SimpleListWalker / SimpleFocusListWalker and a sized user ListWalker (get_focus/set_focus/get_next/get_prev/positions/__len__) with non-index positions (offset / stride ints, strings, tuples); thumb clauses are judged from the row geometry read off the canvas, never from position values",
 ]
 
 TOPNAME = {"S": "Scrollable", "SB": "ScrollBar+Scrollable", "LB": "ScrollBar+ListBox"}
@@ -171,10 +181,19 @@ class Session:
         if self.ckind in ("pile", "listbox"):
             self.items = [self.make(r) for r in content[1]]
         if self.kind == "LB":
-            walker = u.SimpleFocusListWalker if wrap.get("walker") != "simple" else u.SimpleListWalker
-            self.lb = u.ListBox(walker(list(self.items)))
+            from vmon.monitors.c20_spies import POSITION_SCHEMES, KeyedWalker
+
+            wk = wrap.get("walker", "focus")
+            self.poskey = POSITION_SCHEMES.get(wk, lambda i: i)  # index of an item -> its walker position
+            self.custom_walker = wk in POSITION_SCHEMES
+            self.c("walker:" + wk)
+            if wk in POSITION_SCHEMES:
+                body = KeyedWalker(self.items, wk)
+            else:
+                body = (u.SimpleFocusListWalker if wk != "simple" else u.SimpleListWalker)(list(self.items))
+            self.lb = u.ListBox(body)
             if self.items:
-                self.lb.set_focus(content[2] % len(self.items))
+                self.lb.set_focus(self.poskey(content[2] % len(self.items)))
             self.base = inner = self.lb
             self.cw = None
         else:
@@ -236,7 +255,7 @@ class Session:
             if self.items:
                 pos = op[1] % len(self.items)
                 if self.kind == "LB":
-                    self.lb.set_focus(pos)
+                    self.lb.set_focus(self.poskey(pos))
                 else:
                     self.cw.focus_position = pos
         elif k == "settext":
@@ -392,9 +411,9 @@ class Session:
             if self.kind == "LB":
                 rows = []
                 cursor = False
-                fpos = self.lb.focus_position if len(self.lb.body) else None
-                for i, wdg in enumerate(self.lb.body):
-                    cv = wdg.render((cwid,), self.focus and i == fpos)
+                fw = self.lb.body.get_focus()[0] if len(self.lb.body) else None
+                for wdg in self.lb.body:
+                    cv = wdg.render((cwid,), self.focus and wdg is fw)
                     cursor = cursor or cv.cursor is not None
                     rows.extend(canvas_rows(cv))
                 return rows, len(rows), cursor
@@ -578,6 +597,16 @@ class Session:
             top = a if b else h
             if b == 0:
                 self.c("bar_without_thumb")
+            if self.kind == "LB":
+                rel = bool(self.lb.require_relative_scroll((w, h), focus))  # asked for the coverage counters only
+                if rel:
+                    self.c("clause_thumb_listbox_relative_mode")
+                if self.custom_walker:
+                    self.c("clause_thumb_custom_walker" + ("_relative_mode" if rel else "_row_mode"))
+                if A["total"] != B["total"]:
+                    self.c("clause_thumb_listbox_wraps_differently_beside_bar" + ("_relative_mode" if rel else ""))
+                    if rel and p >= m["maxp"]:
+                        self.c("clause_parts_relative_mode_wrapping_items_at_the_end")
             if self.kind == "LB" and m["cursor"]:
                 self.c("clause_thumb_top_listbox_cursor_shown")
                 if p:
@@ -716,6 +745,7 @@ def core_cases(quick):
     allkeys = ["up", "down", "page up", "page down", "home", "end"]
     evs = [["setpos", 2]] + [op for k in allkeys for op in (["key", k], ["setpos", 2])]
     evs += [["mouse", "mouse press", 5, 0, 0], ["mouse", "mouse press", 4, 0, 0], ["mouse", "mouse press", 5, 1, 1]]
+    evs += [op for b in (4, 5, 5, 4) for op in (["mouse", "mouse press", b, 2, 0], ["setpos", 3])]
     for kind in ("S", "SB"):
         for h in (2, 3, 5):
             for shape in ("rowspy", "pile", "fixedspy"):
@@ -762,6 +792,32 @@ def core_cases(quick):
                             items = [["rowspy", 100, 1, False, [], []]] * pre + [it, ["rowspy", 200, 2, False, [], []]]
                             ops = [["dive", k, 6, h2], ["key", "down"], ["key", "up"], ["resize", 6, 12], ["dive", 1, 5, h2]]
                             out.append({"content": ["listbox", items, pre], "wrap": lbwrap, "size": [6, 12], "focus": foc, "ops": ops})
+    # fixed content narrower / wider than the view with content changes and resizes
+    for kind in ("S", "SB"):
+        for cols in (2, 5, 6, 9):
+            for h in (2, 4):
+                wrap = {"kind": kind, "side": "right", "bw": 1, "thumb": "#", "trough": "."}
+                ops = [["setpos", 2], ["setcols", 3], ["setrows", -1, 2], ["setrows", -1, h + 4], ["resize", 5, 3], ["setcols", 9], ["key", "end"], ["setrows", -1, 0], ["resize", 6, h], ["setrows", -1, h + 1], ["setcols", 6]]
+                out.append({"content": ["fixedspy", 0, cols, h + 3, False, [], []], "wrap": wrap, "size": [6, h], "focus": True, "ops": ops})
+    # relative mode (> 3*h items) with item lines right at the view width / the width beside the bar, driven to the end
+    k = 0
+    for W, bar in ((6, 1), (9, 2), (12, 1)):
+        for h in (3, 7, 10):  # the bar only overflows when (h - thumb) * (pos / posmax - 1) >= 1: needs the taller views
+            for tw in (W - bar - 1, W - bar, W - bar + 1, W - 1, W, W + 1):
+                n = 3 * h + 1 + (k % 3)
+                k += 1
+                items = [["text", [(f"{i:02d}" + "".join(chr(97 + (i + j) % 26) for j in range(tw)))[:tw]], "any", "left"] for i in range(n)]
+                wrap = {"kind": "LB", "side": "right" if k % 2 else "left", "bw": bar, "thumb": "#", "trough": ".", "walker": "focus"}
+                ops = [["key", "page down"]] * 6 + [["key", "end"], ["key", "page up"], ["setfocus", -1], ["key", "home"], ["setfocus", -1], ["key", "up"]]
+                out.append({"content": ["listbox", items, 0], "wrap": wrap, "size": [W, h], "focus": bool(k % 4), "ops": ops})
+    # user list walkers whose positions are not 0-based indexes, in relative and in row mode
+    for scheme in ("offset1", "offset1000", "negative", "stride10", "str", "tuple"):
+        for h, n in ((2, 8), (4, 14), (4, 9), (1, 5)):
+            for rows_each in (1, 2):
+                items = [["rowspy", 3 * i, rows_each, bool(i % 2), [], []] for i in range(n)]
+                wrap = {"kind": "LB", "side": "right", "bw": 1, "thumb": "#", "trough": ".", "walker": scheme}
+                ops = [["sweep", "keys"], ["key", "page down"], ["key", "end"], ["key", "page up"], ["setfocus", 1], ["del", 0], ["key", "home"], ["add", 0, ["rowspy", 300, 1, True, [], []]], ["key", "home"], ["sweep", "wheel"]]
+                out.append({"content": ["listbox", items, 0], "wrap": wrap, "size": [7, h], "focus": True, "ops": ops})
     # urwid.Text with MORE rows at the wider width (4 rows at 10 columns, 3 rows at 9): the circular bar case
     text = ["text", ["A0 B1", "C2", "D3 E4 F5 G6 H7 I8", "J9", "K10 L11 M12 N13 O14 P15", "Q16R17r17q"], "space", "left"]
     wrap = {"kind": "SB", "side": "left", "bw": 1, "thumb": "#", "trough": "."}
